@@ -36,9 +36,10 @@ CXXFLAGS = ['-O2', '-std=c++17', '-w']
 CACHE = os.environ.get('C11_CACHE', '/var/tmp/fpyverif_c11_cache')
 
 # violation kind -> id in known_findings.json (filled in when a finding is registered; None = unlisted)
-# 'does-not-compile' (C11-F1: abs() under an unsigned context) and 'fenv-optimised' (C11-F2: rounded operations moved across
-# fesetround by the optimiser) are repaired in /repo: unlisted, a recurrence is a violation.
-FINDING_OF_KIND: dict = {'zero-sign': 'C11-F3', 'sign-only': 'C11-F3', 'neg-zero-integer-storage': 'F29'}
+# 'does-not-compile' (C11-F1: abs() under an unsigned context) is repaired in /repo: unlisted, a recurrence is a violation.
+# 'fenv-optimised' (C11-F2: the -O0 build of a kernel that calls fesetround agrees with the interpreter and the -O2 build of the
+# same text does not) is a recorded finding; a kernel whose -O0 build disagrees is never classified this way.
+FINDING_OF_KIND: dict = {'zero-sign': 'C11-F3', 'sign-only': 'C11-F3', 'neg-zero-integer-storage': 'F29', 'fenv-optimised': 'C11-F2'}
 PER_SHAPE = int(os.environ.get('C11_PER_SHAPE', '2'))   # replay records kept per (kind, template); all are counted
 
 OPTION_COMBOS = [(o, u, a) for o in (True, False) for u in (UnboxMode.NEVER, UnboxMode.ALLOW, UnboxMode.STRICT) for a in (True, False)]
